@@ -1,22 +1,30 @@
-"""C05 (and the panic-freedom half of C06), the axes: `ancestor, ancestor_and_self, child, descendant, descendant_and_self,
-following, following_sibling, preceding, preceding_sibling, namespace` of xpath/src/eval/mod.rs -- what every location step
-starts from.  Until now nothing was assumed or proved about them.
+"""C05 (and the panic-freedom half of C06), the axes: `parent, children, ancestor, ancestor_and_self, child, descendant,
+descendant_and_self, following, following_sibling, preceding, preceding_sibling, namespace` of xpath/src/eval/mod.rs -- what every
+location step starts from.
 
-The tree is what the DOM navigation primitives present: `parent_of`, `children_of`, `index_of` (position among the
-siblings), with `depth` / `height` as termination measures -- uninterpreted, tied together by the well-formedness predicate
-`tree_ok()` (a precondition: the C12 invariant), and `parent_node / child_nodes / next_sibling / previous_sibling` are assumed
-callees that read them.  XPath 1.0 section 2.2 over those primitives:
+Two layers.  The DOM layer is what the navigation primitives present: `dom_parent_of`, `dom_children_of`, `dom_next`, `dom_prev`,
+`is_doctype`, `owner_of` (the element of an attribute) -- uninterpreted, read by the assumed callees `parent_node / child_nodes /
+next_sibling / previous_sibling / node_type / owner_element`.  The XPATH DATA MODEL (XPath 1.0 section 5) is defined on top of it:
 
-  ancestors(n)        parent, its parent, ...            (nearest first: reverse document order)
-  descendants(n)      children with their subtrees        (document order)
-  following_nodes(n)  the subtrees of the following siblings, then whatever follows the PARENT   (document order)
-  preceding_nodes(n)  the subtrees of the preceding siblings reversed, nearest first, then whatever precedes the parent
-                      (reverse document order; ancestors are not included)
+  xp_parent(n)     the element of an attribute node (5.3), the DOM parent of any other node
+  xp_children(n)   none for attribute and namespace nodes (5.3, 5.4); the DOM children without the document type declaration
+                   (which is not a node of the model, 5.1) for any other node
 
-Each function returns exactly that list (`=~=`), by loop invariants and, for the recursive ones, induction through the
-contract of the recursive call (`decreases height(node)` / `depth(node)`).  The namespace axis must not panic (C06).
-Not covered: attribute and namespace nodes as context nodes of following / preceding (their DOM parent is None, so the
-specification above, like the code, gives them nothing); the attribute axis (NamedNodeMap)."""
+and XPath 1.0 section 2.2 over it:
+
+  ancestors(n)        xp_parent, its xp_parent, ...         (nearest first: reverse document order)
+  descendants(n)      xp_children with their subtrees        (document order)
+  following_siblings  the DOM next-sibling chain without the document type declaration; preceding_siblings likewise (nearest first)
+  following_nodes(n)  for an attribute: the descendants of its element first (an attribute comes before the children of its
+                      element in document order); then the subtrees of the following siblings; then whatever follows xp_parent
+  preceding_nodes(n)  the subtrees of the preceding siblings reversed, nearest first, then whatever precedes xp_parent
+                      (reverse document order; ancestors -- hence the element of an attribute -- are not included)
+
+Termination measures `depth / height / fwd_rank / bwd_rank` are uninterpreted and tied to the relations by the well-formedness
+predicate `tree_ok()` (a precondition: the C12 invariant).  Each function returns exactly that list (`=~=`), by loop invariants
+and, for the recursive ones, induction through the contract of the recursive call.  The namespace axis must not panic (C06).
+Not covered: namespace nodes as context nodes (their element is not recorded: `parent_node()` of a namespace node is what the DOM
+says); the attribute axis (NamedNodeMap)."""
 from vf.unit import Fn, Rule
 
 FE = 'xpath/src/eval/mod.rs'
@@ -30,10 +38,11 @@ pub mod error {
 pub mod dom {
     use vstd::prelude::*;
     pub struct XmlElement { pub h: usize }
+    pub struct XmlAttr { pub h: usize }
     pub struct XmlNamespace { pub h: usize }
     pub struct Other { pub h: usize }
-    // dom::XmlNode: the namespace axis distinguishes element nodes from all others
-    pub enum XmlNode { Element(XmlElement), NotElement(Other) }
+    // dom::XmlNode: the XPath data model distinguishes element, attribute and namespace nodes from all others
+    pub enum XmlNode { Element(XmlElement), Attribute(XmlAttr), Namespace(XmlNamespace), NotElement(Other) }
     impl XmlElement {
         // dom::XmlElement::in_scope_namespace (units/c10_scope.py): an error when the value of a declaration cannot be computed
         #[verifier::external_body]
@@ -46,29 +55,51 @@ pub mod dom {
 }
 use dom::XmlNode;
 
-// ---- the tree, as the DOM navigation primitives present it (uninterpreted; well-formedness is a precondition) ----
-pub uninterp spec fn parent_of(n: XmlNode) -> Option<XmlNode>;
-pub uninterp spec fn children_of(n: XmlNode) -> Seq<XmlNode>;
-pub uninterp spec fn index_of(n: XmlNode) -> int;          // position among the children of its parent
-pub uninterp spec fn depth(n: XmlNode) -> nat;             // distance from the root
+// ---- the DOM layer: what the navigation primitives present (uninterpreted; well-formedness is a precondition) ----
+pub uninterp spec fn dom_parent_of(n: XmlNode) -> Option<XmlNode>;
+pub uninterp spec fn dom_children_of(n: XmlNode) -> Seq<XmlNode>;
+pub uninterp spec fn dom_next(n: XmlNode) -> Option<XmlNode>;      // next_sibling()
+pub uninterp spec fn dom_prev(n: XmlNode) -> Option<XmlNode>;      // previous_sibling()
+pub uninterp spec fn is_doctype(n: XmlNode) -> bool;               // node_type() == DocumentType
+pub uninterp spec fn owner_of(a: dom::XmlAttr) -> Option<dom::XmlElement>;   // the element of an attribute
+pub uninterp spec fn depth(n: XmlNode) -> nat;             // distance from the root (in the XPath data model)
 pub uninterp spec fn height(n: XmlNode) -> nat;            // longest way down
+pub uninterp spec fn fwd_rank(n: XmlNode) -> nat;          // how many siblings follow
+pub uninterp spec fn bwd_rank(n: XmlNode) -> nat;          // how many siblings precede
+
+// ---- the XPath data model over the DOM layer (XPath 1.0 section 5) ----
+pub open spec fn xp_parent(n: XmlNode) -> Option<XmlNode> {
+    match n {
+        XmlNode::Attribute(a) => match owner_of(a) { Some(e) => Some(XmlNode::Element(e)), None => None },
+        _ => dom_parent_of(n),
+    }
+}
+pub open spec fn xp_children(n: XmlNode) -> Seq<XmlNode> {
+    match n {
+        XmlNode::Attribute(_) => Seq::empty(),
+        XmlNode::Namespace(_) => Seq::empty(),
+        _ => dom_children_of(n).filter(|v: XmlNode| !is_doctype(v)),
+    }
+}
 pub open spec fn tree_ok() -> bool {
-    &&& forall|n: XmlNode| (#[trigger] parent_of(n)) is Some ==> depth(parent_of(n)->Some_0) < depth(n) && 0 <= index_of(n) < children_of(parent_of(n)->Some_0).len() && children_of(parent_of(n)->Some_0)[index_of(n)] == n
-    &&& forall|n: XmlNode, i: int| 0 <= i < children_of(n).len() ==> height(#[trigger] children_of(n)[i]) < height(n) && parent_of(children_of(n)[i]) == Some(n) && index_of(children_of(n)[i]) == i
+    &&& forall|n: XmlNode| (#[trigger] xp_parent(n)) is Some ==> depth(xp_parent(n)->Some_0) < depth(n)
+    &&& forall|n: XmlNode, i: int| 0 <= i < xp_children(n).len() ==> height(#[trigger] xp_children(n)[i]) < height(n)
+    &&& forall|n: XmlNode| (#[trigger] dom_next(n)) is Some ==> fwd_rank(dom_next(n)->Some_0) < fwd_rank(n)
+    &&& forall|n: XmlNode| (#[trigger] dom_prev(n)) is Some ==> bwd_rank(dom_prev(n)->Some_0) < bwd_rank(n)
 }
 
-// ---- XPath 1.0 section 2.2, axes, over those primitives ----
+// ---- XPath 1.0 section 2.2, axes, over the data model ----
 // ancestor: the parent, its parent, ... (reverse document order: nearest first)
 pub open spec fn ancestors(n: XmlNode) -> Seq<XmlNode>
     decreases depth(n),
 {
-    match parent_of(n) { Some(p) => if depth(p) < depth(n) { seq![p] + ancestors(p) } else { Seq::empty() }, None => Seq::empty() }
+    match xp_parent(n) { Some(p) => if depth(p) < depth(n) { seq![p] + ancestors(p) } else { Seq::empty() }, None => Seq::empty() }
 }
 // descendant: children, their children, ... in document order (a node before its descendants before its next sibling)
 pub open spec fn descendants(n: XmlNode) -> Seq<XmlNode>
     decreases height(n) + 1, 0nat,
 {
-    subtrees(children_of(n), height(n))
+    subtrees(xp_children(n), height(n))
 }
 pub open spec fn subtrees(s: Seq<XmlNode>, h: nat) -> Seq<XmlNode>
     decreases h, s.len() + 1,
@@ -78,12 +109,18 @@ pub open spec fn subtrees(s: Seq<XmlNode>, h: nat) -> Seq<XmlNode>
     }
 }
 pub open spec fn subtree(n: XmlNode) -> Seq<XmlNode> { seq![n] + descendants(n) }
-// following-sibling / preceding-sibling (the latter nearest first)
-pub open spec fn following_siblings(n: XmlNode) -> Seq<XmlNode> {
-    match parent_of(n) { Some(p) => children_of(p).subrange(index_of(n) + 1, children_of(p).len() as int), None => Seq::empty() }
+// a sibling counts unless it is the document type declaration
+pub open spec fn as_xp_node(n: XmlNode) -> Seq<XmlNode> { if is_doctype(n) { Seq::empty() } else { seq![n] } }
+// following-sibling / preceding-sibling (the latter nearest first): the sibling chains of the DOM
+pub open spec fn following_siblings(n: XmlNode) -> Seq<XmlNode>
+    decreases fwd_rank(n),
+{
+    match dom_next(n) { Some(x) => if fwd_rank(x) < fwd_rank(n) { as_xp_node(x) + following_siblings(x) } else { Seq::empty() }, None => Seq::empty() }
 }
-pub open spec fn preceding_siblings(n: XmlNode) -> Seq<XmlNode> {
-    match parent_of(n) { Some(p) => children_of(p).subrange(0, index_of(n)).reverse(), None => Seq::empty() }
+pub open spec fn preceding_siblings(n: XmlNode) -> Seq<XmlNode>
+    decreases bwd_rank(n),
+{
+    match dom_prev(n) { Some(x) => if bwd_rank(x) < bwd_rank(n) { as_xp_node(x) + preceding_siblings(x) } else { Seq::empty() }, None => Seq::empty() }
 }
 // the subtrees of a list of nodes, one after the other (document order) / each reversed (reverse document order)
 pub open spec fn flat_subtrees(s: Seq<XmlNode>) -> Seq<XmlNode>
@@ -96,40 +133,50 @@ pub open spec fn flat_subtrees_rev(s: Seq<XmlNode>) -> Seq<XmlNode>
 {
     if s.len() == 0 { Seq::empty() } else { flat_subtrees_rev(s.drop_last()) + subtree(s.last()).reverse() }
 }
-// following: everything after the node in document order that is not a descendant: the subtrees of its following
-// siblings, then whatever follows its parent
+// an attribute comes before the children of its element in document order: they follow it
+pub open spec fn after_an_attribute(n: XmlNode) -> Seq<XmlNode> {
+    match n { XmlNode::Attribute(_) => match xp_parent(n) { Some(o) => descendants(o), None => Seq::empty() }, _ => Seq::empty() }
+}
+// following: everything after the node in document order that is not a descendant (and no attribute or namespace node)
 pub open spec fn following_nodes(n: XmlNode) -> Seq<XmlNode>
     decreases depth(n),
 {
-    flat_subtrees(following_siblings(n)) + (match parent_of(n) { Some(p) => if depth(p) < depth(n) { following_nodes(p) } else { Seq::empty() }, None => Seq::empty() })
+    after_an_attribute(n) + flat_subtrees(following_siblings(n)) + (match xp_parent(n) { Some(p) => if depth(p) < depth(n) { following_nodes(p) } else { Seq::empty() }, None => Seq::empty() })
 }
 // preceding: everything before the node in document order that is not an ancestor, nearest first
 pub open spec fn preceding_nodes(n: XmlNode) -> Seq<XmlNode>
     decreases depth(n),
 {
-    flat_subtrees_rev(preceding_siblings(n)) + (match parent_of(n) { Some(p) => if depth(p) < depth(n) { preceding_nodes(p) } else { Seq::empty() }, None => Seq::empty() })
+    flat_subtrees_rev(preceding_siblings(n)) + (match xp_parent(n) { Some(p) => if depth(p) < depth(n) { preceding_nodes(p) } else { Seq::empty() }, None => Seq::empty() })
 }
 
 impl XmlNode {
     #[verifier::external_body]
-    pub fn parent_node(&self) -> (r: Option<XmlNode>) ensures r == parent_of(*self) { unimplemented!() }
+    pub fn parent_node(&self) -> (r: Option<XmlNode>) ensures r == dom_parent_of(*self) { unimplemented!() }
     #[verifier::external_body]
     pub fn clone(&self) -> (r: XmlNode) ensures r == *self { unimplemented!() }
-    // node.child_nodes().iter()
+    // node.child_nodes().iter().filter(|v| v.node_type() != dom::NodeType::DocumentType).collect()
     #[verifier::external_body]
-    pub fn shim_children(&self) -> (r: Vec<XmlNode>) ensures r@ == children_of(*self) { unimplemented!() }
+    pub fn shim_children_without_doctype(&self) -> (r: Vec<XmlNode>) ensures r@ == dom_children_of(*self).filter(|v: XmlNode| !is_doctype(v)) { unimplemented!() }
+    // node.node_type() != dom::NodeType::DocumentType
     #[verifier::external_body]
-    pub fn next_sibling(&self) -> (r: Option<XmlNode>)
-        ensures r == (match parent_of(*self) { Some(p) => if index_of(*self) + 1 < children_of(p).len() { Some(children_of(p)[index_of(*self) + 1]) } else { None }, None => None })
-    { unimplemented!() }
+    pub fn shim_is_not_doctype(&self) -> (r: bool) ensures r == !is_doctype(*self) { unimplemented!() }
     #[verifier::external_body]
-    pub fn previous_sibling(&self) -> (r: Option<XmlNode>)
-        ensures r == (match parent_of(*self) { Some(p) => if index_of(*self) >= 1 { Some(children_of(p)[index_of(*self) - 1]) } else { None }, None => None })
-    { unimplemented!() }
+    pub fn next_sibling(&self) -> (r: Option<XmlNode>) ensures r == dom_next(*self) { unimplemented!() }
+    #[verifier::external_body]
+    pub fn previous_sibling(&self) -> (r: Option<XmlNode>) ensures r == dom_prev(*self) { unimplemented!() }
 }
+// v.owner_element().map(|e| e.as_node()): the element of the attribute, as a node
+#[verifier::external_body]
+pub fn shim_owner_node(v: &dom::XmlAttr) -> (r: Option<XmlNode>)
+    ensures r == (match owner_of(*v) { Some(e) => Some(XmlNode::Element(e)), None => None::<XmlNode> }),
+{ unimplemented!() }
 #[verifier::external_body]
 pub fn shim_reverse(v: &mut Vec<XmlNode>) ensures final(v)@ == old(v)@.reverse() { v.reverse() }
 
+//@@ parent
+
+//@@ children
 
 //@@ ancestor
 
@@ -157,7 +204,6 @@ fn main() {}
 '''
 
 R_TYPE = Rule('R11', r'dom::XmlNode', 'XmlNode', 'path of the node type (imported in the environment)')
-R_CHILDREN = lambda var: Rule('R47', r'for ' + var + r' in node\.child_nodes\(\)\.iter\(\) \{', 'for ' + var + ' in __it: node.shim_children() /*@loop*/ {', 'NodeList::iter() -> for over the list of children, iterator named')
 R_APPEND_TMP = Rule('R36', r'nodes\.append\(&mut (\w+)\((\w+)\)\);', r'let mut __t = \1(\2); nodes.append(&mut __t);', '&mut of a temporary -> a named local')
 TAKE_STEP = lambda lst: f'proof {{ assert({lst}.take(__it.index@ + 1).drop_last() =~= {lst}.take(__it.index@)); }}'
 TAKE_ALL = lambda lst: f'proof {{ assert({lst}.take({lst}.len() as int) =~= {lst}); }}'
@@ -173,32 +219,36 @@ def build():
         fns[name] = Fn(FE, None, name, props=props, safety_props=S, label=f'xpath::axis::{name}', sig_rules=[R_TYPE], rules=[R_TYPE] + list(rules),
                        requires=list(requires), ensures=list(ensures), loops=loops, inject=list(inject), decreases=decreases)
 
+    add('parent', [('C05:the_element_of_an_attribute_otherwise_the_dom_parent', 'r == xp_parent(*node)')], requires=(),
+        rules=[Rule('R48', r'v\.owner_element\(\)\.map\(\|e\| e\.as_node\(\)\)', 'shim_owner_node(v)', 'Option::map(as_node) over owner_element() -> shim: the element of the attribute, as a node')])
+    add('children', [('C05:none_for_attribute_and_namespace_nodes_otherwise_the_dom_children_without_the_doctype', 'r@ == xp_children(*node)')], requires=(),
+        rules=[Rule('R48', r'node\s*\.child_nodes\(\)\s*\.iter\(\)\s*\.filter\(\|v\| v\.node_type\(\) != dom::NodeType::DocumentType\)\s*\.collect\(\)',
+                    lambda m: 'node.shim_children_without_doctype()' + '\n' * m.group(0).count('\n'), 'child_nodes().iter().filter(not the document type).collect() -> shim: Seq::filter')])
     add('ancestor', [('C05:the_parent_its_parent_and_so_on_nearest_first', 'r@ =~= ancestors(node)')],
-        loops={0: dict(invariant=[('frame', 'tree_ok()'), ('C05:collected_so_far_plus_what_is_left', 'nodes@ + (match parent { Some(p) => seq![p] + ancestors(p), None => Seq::empty() }) =~= ancestors(node)')],
+        loops={0: dict(invariant=[('frame', 'tree_ok()'), ('C05:collected_so_far_plus_what_is_left', 'nodes@ + (match next { Some(p) => seq![p] + ancestors(p), None => Seq::empty() }) =~= ancestors(node)')],
                        ensures=[('C05:all_ancestors_collected', 'nodes@ =~= ancestors(node)')],
-                       decreases='(match parent { Some(p) => depth(p) + 1, None => 0 })')})
+                       decreases='(match next { Some(p) => depth(p) + 1, None => 0 })')})
     add('ancestor_and_self', [('C05:the_node_then_its_ancestors', 'r@ =~= seq![node] + ancestors(node)')], rules=[R_APPEND_TMP])
-    add('child', [('C05:the_children_in_document_order', 'r@ =~= children_of(node)')], rules=[R_CHILDREN('c')], requires=(),
-        loops={0: dict(invariant=[('C05:children_so_far', '__it.seq() == children_of(node) && nodes@ =~= children_of(node).take(__it.index@)')])})
-    add('descendant', [('C05:children_with_their_subtrees_in_document_order', 'r@ =~= descendants(node)')], rules=[R_CHILDREN('child')], decreases='height(node)',
-        loops={0: dict(invariant=[('frame', 'tree_ok() && __it.seq() == children_of(node)'), ('C05:subtrees_of_the_children_so_far', 'nodes@ =~= subtrees(children_of(node).take(__it.index@), height(node))')])},
-        inject=[(r'for child in __it', TAKE_ALL('children_of(node)'), 'after_block'), (r'nodes\.push\(child\.clone\(\)\);', TAKE_STEP('children_of(node)'), 'before')])
+    add('child', [('C05:the_children_in_document_order', 'r@ =~= xp_children(node)')], requires=())
+    add('descendant', [('C05:children_with_their_subtrees_in_document_order', 'r@ =~= descendants(node)')], decreases='height(node)',
+        rules=[Rule('R47', r'for child in children\(&node\) \{', 'for child in __it: children(&node) /*@loop*/ {', 'iterator named')],
+        loops={0: dict(invariant=[('frame', 'tree_ok() && __it.seq() == xp_children(node)'), ('C05:subtrees_of_the_children_so_far', 'nodes@ =~= subtrees(xp_children(node).take(__it.index@), height(node))')])},
+        inject=[(r'for child in __it', TAKE_ALL('xp_children(node)'), 'after_block'), (r'nodes\.push\(child\.clone\(\)\);', TAKE_STEP('xp_children(node)'), 'before')])
     add('descendant_and_self', [('C05:the_node_then_its_descendants', 'r@ =~= subtree(node)')], rules=[R_APPEND_TMP])
-    add('following_sibling', [('C05:the_later_children_of_the_parent_in_document_order', 'r@ =~= following_siblings(node)')],
+    R_NOTDT = Rule('R33', r'(\w+)\.node_type\(\) != dom::NodeType::DocumentType', r'\1.shim_is_not_doctype()', 'PartialEq on the derive(PartialEq) enum NodeType -> shim')
+    add('following_sibling', [('C05:the_later_siblings_without_the_doctype_in_document_order', 'r@ =~= following_siblings(node)')], rules=[R_NOTDT],
         loops={0: dict(invariant=[('frame', 'tree_ok()'),
-                                  ('C05:next_is_the_sibling_after_the_ones_collected', 'match next { Some(n) => parent_of(n) == parent_of(node) && parent_of(node) is Some && index_of(n) == index_of(node) + 1 + nodes@.len(), None => nodes@ =~= following_siblings(node) }'),
-                                  ('C05:collected_so_far', 'parent_of(node) is Some ==> nodes@ =~= children_of(parent_of(node)->Some_0).subrange(index_of(node) + 1, index_of(node) + 1 + nodes@.len())')],
+                                  ('C05:collected_so_far_plus_what_is_left', 'nodes@ + (match next { Some(x) => as_xp_node(x) + following_siblings(x), None => Seq::empty() }) =~= following_siblings(node)')],
                        ensures=[('C05:all_following_siblings_collected', 'nodes@ =~= following_siblings(node)')],
-                       decreases='(match next { Some(n) => children_of(parent_of(node)->Some_0).len() - index_of(n), None => 0 })')})
-    add('preceding_sibling', [('C05:the_earlier_children_of_the_parent_nearest_first', 'r@ =~= preceding_siblings(node)')],
+                       decreases='(match next { Some(x) => fwd_rank(x) + 1, None => 0 })')})
+    add('preceding_sibling', [('C05:the_earlier_siblings_without_the_doctype_nearest_first', 'r@ =~= preceding_siblings(node)')], rules=[R_NOTDT],
         loops={0: dict(invariant=[('frame', 'tree_ok()'),
-                                  ('C05:prev_is_the_sibling_before_the_ones_collected', 'match prev { Some(p) => parent_of(p) == parent_of(node) && parent_of(node) is Some && index_of(p) == index_of(node) - 1 - nodes@.len(), None => nodes@ =~= preceding_siblings(node) }'),
-                                  ('C05:collected_so_far', 'parent_of(node) is Some ==> nodes@.len() <= index_of(node) && nodes@ =~= children_of(parent_of(node)->Some_0).subrange(index_of(node) - nodes@.len(), index_of(node)).reverse()')],
+                                  ('C05:collected_so_far_plus_what_is_left', 'nodes@ + (match prev { Some(x) => as_xp_node(x) + preceding_siblings(x), None => Seq::empty() }) =~= preceding_siblings(node)')],
                        ensures=[('C05:all_preceding_siblings_collected', 'nodes@ =~= preceding_siblings(node)')],
-                       decreases='(match prev { Some(p) => index_of(p) + 1, None => 0 })')})
+                       decreases='(match prev { Some(x) => bwd_rank(x) + 1, None => 0 })')})
     add('following', [('C05:everything_after_the_node_that_is_not_a_descendant_in_document_order', 'r@ =~= following_nodes(node)')], decreases='depth(node)',
         rules=[Rule('R47', r'for n in following_sibling\((node(?:\.clone\(\))?)\) \{', r'for n in __it: following_sibling(\1) /*@loop*/ {', 'iterator named'), R_APPEND_TMP],
-        loops={0: dict(invariant=[('frame', 'tree_ok() && __it.seq() == following_siblings(node)'), ('C05:subtrees_of_the_following_siblings_so_far', 'nodes@ =~= flat_subtrees(following_siblings(node).take(__it.index@))')])},
+        loops={0: dict(invariant=[('frame', 'tree_ok() && __it.seq() == following_siblings(node)'), ('C05:subtrees_of_the_following_siblings_so_far', 'nodes@ =~= after_an_attribute(node) + flat_subtrees(following_siblings(node).take(__it.index@))')])},
         inject=[(r'for n in __it', TAKE_ALL('following_siblings(node)'), 'after_block'), (r'let mut __t = descendant_and_self\(n\);', TAKE_STEP('following_siblings(node)'), 'before')])
     add('preceding', [('C05:everything_before_the_node_that_is_not_an_ancestor_nearest_first', 'r@ =~= preceding_nodes(node)')], decreases='depth(node)',
         rules=[Rule('R47', r'for p in preceding_sibling\((node(?:\.clone\(\))?)\) \{', r'for p in __it: preceding_sibling(\1) /*@loop*/ {', 'iterator named'), R_APPEND_TMP,
